@@ -191,7 +191,9 @@ def concretize(hist, idx, seed):
             "stdin_closed": (idx % 4 == 1),
             # (not with so_reuseport: Process._get_sockets_fds looks for the reference in cmd, in lower case, to decide
             #  whether a worker gets its own socket; those sockets are excepted by the statement)
-            "refs_in_args": (idx % 3 == 1) and not rp, "refs_upper": (idx % 5 == 2) and not rp}
+            "refs_in_args": (idx % 3 == 1) and not rp, "refs_upper": (idx % 5 == 2) and not rp,
+            # a managed socket need not be a stream socket: the unix one as a datagram socket (bound, not listening)
+            "unix_dgram": (idx % 4 == 2)}
 
 
 def make_ini(d, hist, conc):
@@ -205,6 +207,8 @@ def make_ini(d, hist, conc):
     if conc["backlog"]:
         lines.append("backlog = %d" % conc["backlog"])
     lines += ["", "[socket:unix]", "path = %s/m.sock" % d]
+    if conc.get("unix_dgram"):
+        lines.append("type = SOCK_DGRAM")
     if conc["unix_replace"]:
         lines.append("replace = True")
     # where and how the command line refers to the sockets: in cmd or in args, in lower or upper case
@@ -339,7 +343,7 @@ class LiveRun(object):
         """Which daemon descriptors are the managed sockets?  Answered from the kernel's tables, not by circus."""
         inodes = dict((livelib.socket_inode(t), fd) for fd, t in dfd.items() if livelib.socket_inode(t) is not None)
         tcp = livelib.tcp_listeners()
-        unx = livelib.unix_listeners()
+        unx = livelib.unix_bound() if self.conc.get("unix_dgram") else livelib.unix_listeners()
         if not self.rp["inet"]:
             cands = [(ino, tcp[ino]) for ino in inodes if ino in tcp and tcp[ino][0] == "127.0.0.1"]
             if self.conc["inet_port"]:
@@ -374,7 +378,8 @@ class LiveRun(object):
                 if livelib.socket_inode(t) is not None:
                     self.daemon_socket_inodes.add(livelib.socket_inode(t))
         tcp = livelib.tcp_listeners()
-        unx = livelib.unix_listeners()
+        dg = bool(self.conc.get("unix_dgram"))      # the managed unix socket is a datagram socket: bound, never listening
+        unx = livelib.unix_bound() if dg else livelib.unix_listeners()
         self.assign_ordinals(live)
         socks, probes = {}, {}
         for n in SOCKS:
@@ -386,7 +391,8 @@ class LiveRun(object):
             if b is None:
                 socks[n] = {"same": False, "inl": False, "probe": False}
                 continue
-            probes[n] = livelib.probe_inet(b["port"]) if n == "inet" else livelib.probe_unix(b["path"])
+            probes[n] = (livelib.probe_inet(b["port"]) if n == "inet" else
+                         livelib.probe_unix_dgram(b["path"]) if dg else livelib.probe_unix(b["path"]))
             inl = (b["inode"] in tcp) if n == "inet" else (b["inode"] in unx)
             for _ in range(4):
                 if inl:
@@ -394,7 +400,8 @@ class LiveRun(object):
                 # /proc/net/* is not read atomically: under churn a row can be skipped; a socket that really
                 # stopped listening stays so, so looking again is sound
                 time.sleep(T(0.05))
-                inl = (b["inode"] in livelib.tcp_listeners()) if n == "inet" else (b["inode"] in livelib.unix_listeners())
+                inl = (b["inode"] in livelib.tcp_listeners()) if n == "inet" else (
+                    b["inode"] in (livelib.unix_bound() if dg else livelib.unix_listeners()))
             socks[n] = {"same": dfd.get(b["fd"]) == "socket:[%d]" % b["inode"], "inl": inl,
                         "probe": probes[n] == "ok"}
         workers = []
